@@ -64,6 +64,13 @@ def run_cmd(op, idx):
                 ret = fn(**kwargs)
             if op.get("return_is_output"):
                 result["returned"] = pureops.canon(ret)
+            for i_, nxt in enumerate(op.get("then", ())):
+                # follow-up SDK calls in the same scratch project (e.g. openapi_bulk over the routes just generated)
+                mod2, _, attr2 = nxt["fn"].rpartition(".")
+                import importlib
+                fn2 = getattr(importlib.import_module(mod2), attr2)
+                kw2 = json.loads(json.dumps(nxt.get("kwargs", {})).replace("{ROOT}", root))
+                result["then%d" % i_] = pureops.canon(fn2(**kw2))
         except BaseException as e:  # SystemExit included
             result = {"kind": "raised", "exc": type(e).__name__}
         finally:
